@@ -96,11 +96,19 @@ def val(e):
 _nonce = itertools.count(1)
 
 
+LaneNonce = z3.Function("LaneNonce", z3.IntSort(), z3.IntSort(), z3.IntSort())
+
+
 def next_nonce():
+    """fresh nonce; inside a vmap lane / scan step it is indexed by the lane / step variables
+    (independent draw per lane and per iteration — part of the assumed vmap/scan contracts)"""
     eng = engine()
     n = eng.extra.setdefault("nonce", 0) + 1
     eng.extra["nonce"] = n
-    return z3.IntVal(n)
+    t = z3.IntVal(n)
+    for lv in eng.extra.get("lanes", []):
+        t = LaneNonce(t, lv)
+    return t
 
 
 @core.Pytree.dataclass
@@ -238,9 +246,13 @@ class AbsGF:
         self.calls.append(("merge", (x, x_, check), {}))
         if x is None or x_ is None:
             raise TypeError("merge of None (callee merges are total only on choice maps)")
+        if check is not None:
+            # G6 with check: leaf-wise `check ? x : x_` (scalar abstract values: the whole value)
+            from .stubs.jnp import where
+
+            return where(check, x, x_), None
         m = Sym(self.MergeF(enc(x), enc(x_), enc(check)))
-        d = None if check is not None else Sym(self.MergeD(enc(x), enc(x_)))
-        return m, d
+        return m, Sym(self.MergeD(enc(x), enc(x_)))
 
     def filter(self, x, s):
         self.calls.append(("filter", (x, s), {}))
